@@ -49,16 +49,160 @@ def explore(ctx, tier, search=False):
     ctx.correspond("proxy heap: observables of all live objects after every event + GET log", cases)
 
 
+# ------------------------------------------------------------------------------------------------
+# arrays and grids, maps included: oracle-only histories (the traced correspondence above opens the dataset with
+# open_url's default output_grid=False and therefore never reads a map)
+GSHAPE = (6, 8)
+
+
+def _grid_dataset():
+    import numpy as np
+    from pydap.model import BaseType, DatasetType, GridType
+
+    ds = DatasetType("ds")
+    ds["a"] = BaseType("a", np.arange(48, dtype="i4").reshape(GSHAPE), dims=("x", "y"))
+    g = GridType("g")
+    g["g"] = BaseType("g", np.arange(48, dtype="i4").reshape(GSHAPE) + 500, dims=("x", "y"))
+    g["x"] = BaseType("x", np.arange(6, dtype="i4") * 10, dims=("x",))
+    g["y"] = BaseType("y", np.arange(8, dtype="i4") * 10 + 1000, dims=("y",))
+    ds["g"] = g
+    return ds
+
+
+def _axis_index(rng, N):
+    r = rng.random()
+    if r < 0.15:
+        return rng.randint(-N, N - 1)
+    if r < 0.45:       # unbounded, possibly strided
+        return slice(None, None, rng.choice([None, 1, 2, 3]))
+    a = rng.choice([None, 0, 1, 2, -N, -2])
+    b = rng.choice([None, N, N - 1, N + 2, -1, 3, 4])
+    return slice(a, b, rng.choice([None, 1, 2, 3]))
+
+
+def gen_grid_history(rng, n):
+    ops = []
+    for _ in range(n):
+        target = rng.choice(["g", "g", "g", "a", "g.x", "g.y"])
+        if target in ("g", "a"):
+            r = rng.random()
+            idx = [_axis_index(rng, GSHAPE[0]), _axis_index(rng, GSHAPE[1])]
+            if r < 0.15:
+                idx = idx[:1]
+            elif r < 0.3:
+                idx = [Ellipsis, idx[1]]
+            elif r < 0.36:
+                idx = [Ellipsis]
+            idx = tuple(idx)
+        else:
+            idx = (_axis_index(rng, GSHAPE[0] if target == "g.x" else GSHAPE[1]),)
+        ops.append((target, idx))
+    return ops
+
+
+def _keep1(src, idx):
+    """numpy selection with integer-indexed axes kept as length-1 axes"""
+    import numpy as np
+    full = []
+    real = [e for e in idx if e is not Ellipsis]
+    if Ellipsis in idx:
+        k = idx.index(Ellipsis)
+        full = list(idx[:k]) + [slice(None)] * (src.ndim - len(real)) + list(idx[k + 1:])
+    else:
+        full = list(idx) + [slice(None)] * (src.ndim - len(real))
+    full = [slice(e, e + 1 if e != -1 else None) if isinstance(e, int) else e for e in full]
+    return np.asarray(src[tuple(full)]), full
+
+
+def run_grid_history(ctx, ops, output_grid, case):
+    """every read must equal numpy on the source, and re-reading every earlier operation must return what it
+    returned the first time (a read leaves the opened objects unchanged)"""
+    import numpy as np
+    from pydap.client import open_url
+    from pydap.handlers.lib import BaseHandler
+
+    src = _grid_dataset()
+    app = BaseHandler(_grid_dataset())
+    ds = open_url("http://localhost:8001/ds", application=app, output_grid=output_grid)
+
+    def do(op):
+        target, idx = op
+        if target == "a":
+            exp, _ = _keep1(src["a"].data, idx)
+            got = np.asarray(ds["a"][idx].data) if False else np.asarray(ds["a"][idx])
+            return [got.tolist()], [exp.tolist()]
+        if target in ("g.x", "g.y"):
+            name = target[2:]
+            exp, _ = _keep1(src["g"][name].data, idx)
+            return [np.asarray(ds["g"][name][idx]).tolist()], [exp.tolist()]
+        exp, full = _keep1(src["g"]["g"].data, idx)
+        r = ds["g"][idx]
+        if output_grid:
+            got = [np.asarray(r["g"].data).tolist(), np.asarray(r["x"].data).tolist(), np.asarray(r["y"].data).tolist()]
+            want = [exp.tolist(), np.asarray(src["g"]["x"].data[full[0]]).tolist(),
+                    np.asarray(src["g"]["y"].data[full[1]]).tolist()]
+        else:
+            got, want = [np.asarray(r.data).tolist()], [exp.tolist()]
+        return got, want
+
+    first = []
+    for n, op in enumerate(ops):
+        # skip empty selections: the property speaks about selections of at least one element
+        probe, _ = _keep1(src["a"].data if op[0] in ("a", "g") else src["g"][op[0][2:]].data, op[1])
+        if probe.size == 0:
+            first.append(None)
+            continue
+        try:
+            got, want = do(op)
+        except Exception as e:
+            got, want = "escaped:%s:%s" % (type(e).__name__, str(e)[:60]), "values"
+        if got != want:
+            ctx.oracle_fail("array/grid read returns other elements (array or maps) than numpy selects", case, got, want,
+                            size=10 * len(ops) + n)
+            return False
+        first.append(got)
+        for m in range(n + 1):
+            if first[m] is None:
+                continue
+            try:
+                again, _ = do(ops[m])
+            except Exception as e:
+                again = "escaped:%s" % type(e).__name__
+            if again != first[m]:
+                ctx.oracle_fail("re-reading an earlier selection returns other data after later reads", 
+                                dict(case, reread=m, after=n), again, first[m], size=10 * len(ops) + n)
+                return False
+    return True
+
+
+def grid_pass(ctx, tier, search=False):
+    n = 40 if (tier == "quick" and not search) else 800
+    for i in range(n):
+        rng = ctx.rng("grid/%d" % i)
+        ops = gen_grid_history(rng, rng.randint(2, 6))
+        og = bool(i % 2)
+        case = {"kind": "gridhist", "output_grid": og, "ops": [[t, repr(ix)] for t, ix in ops]}
+        run_grid_history(ctx, ops, og, case)
+        ctx.count(("gridhist", og, repr(ops)), True, tag="gridhist:output_grid=%s" % og, sample=case if i < 2 else None)
+
+
 def run(ctx):
     ctx.rule = ("seeded random histories of 1..8 user operations {seq[cols], seq[cond], seq[a:b(:k)], seq[int], seq[name], "
                 "read, array[index], grid[index], DAP4 variable[index], server function call+read} applied to arbitrary "
+                "earlier results of one opened dataset; plus array/grid/map read histories (2..6 reads, output_grid on/off, every "
+                "earlier read repeated after every later one, compared with numpy); "
                 "earlier results of one opened dataset, every live object re-read after every operation, plus fixed "
                 "histories; a history is non-trivial when it contains a derivation; distinct by operation list")
     ctx.assumptions = ["requests (session → adapter dispatch) is modelled, not verified; the adapter answers from an "
                        "in-process pydap server", "name resolution is disabled: a request outside the session fails fast"]
     ctx.proof_phase()
     explore(ctx, ctx.tier)
-    return ctx.finish(search=lambda c: explore(c, "thorough", search=True))
+    grid_pass(ctx, ctx.tier)
+
+    def search(c):
+        explore(c, "thorough", search=True)
+        grid_pass(c, "thorough", search=True)
+    return ctx.finish(search=search)
 
 
 def replay(payload):
@@ -69,6 +213,12 @@ def replay(payload):
     c = f["case"]
     ctx = common.Ctx("C14", "quick", 0)
     ctx.findings = []
+    if c.get("kind") == "gridhist":
+        ops = [(t, eval(ix, {"slice": slice, "Ellipsis": Ellipsis})) for t, ix in c["ops"]]
+        ok = run_grid_history(ctx, ops, c["output_grid"], c)
+        for fl in ctx.oracle_failures[:3]:
+            print(fl["what"], "observed", fl["observed"], "expected", fl["expected"])
+        return ok
     ops = cs.ops_unjson(c["ops"])
     sim = cs.Sim(c.get("session", "plain"))
     hr = cs.HistoryRun(ctx, sim, ops, c).run()
